@@ -3,6 +3,9 @@ import PeliteModel.Lemmas.VersionRoundTrip
 C13 helper lemmas, part 7: the reference writer emits u16 words when the content words are u16 and
 the root's length fits (every other length field is smaller).
 -/
+set_option linter.unusedSimpArgs false
+set_option linter.unnecessarySimpa false
+
 namespace Pelite.Version
 open Spec
 
